@@ -699,7 +699,9 @@ pub fn run_sessions(rep: &mut Report, r: &mut Rng, n: u64, level: u32, scope: Sc
             let witness = format!("session on one handler and key, budget {} reply options {:?}: {}", m, opts.iter().map(|o| o.0).collect::<Vec<_>>(), story.join(" ; "));
             set_case_str(&witness);
             let (findings, st) = download(&mut server, &cfg, ids);
-            let clean = findings.is_empty();
+            // budget findings are judgements on a completed exchange; every other finding aborted
+            // the transfer midway, so the session cannot go on after it
+            let clean = !findings.iter().any(|x| x.scope != Scope::Budget);
             let findings: Vec<Finding> = findings.into_iter().map(|mut x| {
                 x.sig = format!("in-session:{}", x.sig);
                 x
